@@ -10,6 +10,7 @@
    `spec_run` is the abstract view: ranges and subsets requested, the two chains. *)
 From Coq Require Import ZArith NArith List Bool Permutation.
 From FV Require Import Common.Bytes Model.C08_Model Proofs.C08_Proofs.
+From FV Require Import gen.Gen_client_datasets_pre gen.Gen_federated_data.
 Import ListNotations.
 Local Open Scope Z_scope.
 
@@ -77,6 +78,27 @@ Proof. exact preprocess_order. Qed.
 Theorem C08_chain_append : forall i cs f bs g r,
   run_c i (cs ++ [f]) r = app_c i f (run_c i cs r) /\ run_b (bs ++ [g]) r = app_b g (run_b bs r).
 Proof. exact chain_append. Qed.
+
+(* the TRANSLATED ClientPreprocessor / BatchPreprocessor / ClientDataset.all_examples (gen/): append
+   adds at the end of the chain and __call__ applies the chain from the left, for any functions *)
+Theorem C08_translated_chains : forall {F G E : Type} (applyc : F -> bytes -> E -> E) (applyb : G -> E -> E),
+  (forall (fns : list F) fn, client_preprocessor_append fns fn = fns ++ [fn]) /\
+  (forall (fns : list G) fn, batch_preprocessor_append fns fn = fns ++ [fn]) /\
+  (forall fns i ex, client_preprocessor_call applyc fns i ex = fold_left (fun out f => applyc f i out) fns ex) /\
+  (forall fns ex, batch_preprocessor_call applyb fns ex = fold_left (fun out f => applyb f out) fns ex) /\
+  (forall raw pre, client_dataset_all_examples applyb raw pre = fold_left (fun out f => applyb f out) pre raw).
+Proof. exact @translated_chains. Qed.
+
+(* each pass of shuffled_clients visits every client of the view exactly once, with its
+   preprocessed dataset, for every buffer size >= 1 and every outcome of the random draws
+   (code = Lehmer code of rng.shuffle(buf), draws = rng.randint(buffer_size) values, each >= -B);
+   buffered_shuffle is the mirror proved a permutation in C15 (C15_buffered_shuffle_perm) *)
+Theorem C08_shuffled_pass_visits_each_once : forall (ds : list (bytes * list Z)), NoDup (map fst ds) ->
+  forall p ops B code draws, 1 <= B -> Forall (fun dd => - B <= dd) draws ->
+  exists d fl out, impl_run p ds ops = Some (d, fl) /\
+    fd_shuffled_pass d B code draws = Some out /\
+    Permutation out (spec_clients ds (fst (spec_run ds view0 ops))).
+Proof. exact shuffled_pass_visits_each_once. Qed.
 
 (* deriving a view never changes its parent: the child is a function of the parent's value,
    and the parent is the run of the prefix whatever is derived afterwards *)
@@ -147,6 +169,8 @@ Print Assumptions C08_range_is_half_open.
 Print Assumptions C08_outside_view_keyerror.
 Print Assumptions C08_preprocess_order.
 Print Assumptions C08_chain_append.
+Print Assumptions C08_translated_chains.
+Print Assumptions C08_shuffled_pass_visits_each_once.
 Print Assumptions C08_derive_is_persistent.
 Print Assumptions C08_get_clients_request_order.
 Print Assumptions C08_mem_dict_order_irrelevant.
